@@ -1,16 +1,45 @@
 #!/usr/bin/env python3
-"""Regenerate section 11 ("As built") of DESIGN.md from the evidence files, known_findings.json and seeded/MATRIX.json.
-Run all 20 quick checks on /repo first so that evidence/ is current."""
-import os, re, sys
-HERE = os.path.dirname(os.path.dirname(os.path.abspath(__file__)))
-body = open(os.path.join(HERE, "_work", "design_sec11.md")).read() if os.path.exists(os.path.join(HERE, "_work", "design_sec11.md")) else None
-if body is None:
-    sys.exit("run the generator snippet first")
-p = os.path.join(HERE, "DESIGN.md")
+"""Regenerate section 11.2-11.4 data of DESIGN.md ("As built") from evidence/*.json, known_findings.json and
+seeded/MATRIX.json. Run `./check all` on /repo first so that evidence/ is current. The prose of 11.1 and the
+false-alarm list are kept in tools/design_asbuilt_prose.md."""
+import json, os, re, sys
+H = os.path.dirname(os.path.dirname(os.path.abspath(__file__)))
+ev = {}
+for i in range(1, 21):
+    p = "C%02d" % i
+    ev[p] = json.load(open("%s/evidence/%s.json" % (H, p)))
+kf = json.load(open(H + "/known_findings.json"))
+m = json.load(open(H + "/seeded/MATRIX.json"))
+prose = open(H + "/tools/design_asbuilt_prose.md").read()
+intro, falsealarms, seeded_intro = prose.split("\n<!--SPLIT-->\n")
+out = [intro, "\n### 11.2 Rules per property as evaluated on this tree\n\n"]
+for p in sorted(ev):
+    c = ev[p]["coverage"]
+    out.append("**%s** - %d obligations, %d discharged, %d functions in %d units.\n" % (p, c["obligations"], c["discharged"], len(c["functions_analysed"]), len(c["units_analysed"])))
+    rules = c["explanation"].split("Rules applied: ", 1)[1]
+    for r in re.split(r"; (?=R\d+: )", rules):
+        rid = r.split(":")[0]
+        pr = c["per_rule"].get(rid, {})
+        out.append("  * %s - *%d obligations*\n" % (r.strip(), pr.get("obligations", 0)))
+    for nd in c.get("not_decided", []):
+        out.append("  * not decided: %s\n" % nd)
+    out.append("\n")
+out.append("### 11.3 Defects found on the unchanged tree\n\nEvery report on the unchanged tree was replayed concretely against the real library before it was classified (demos under `/verif/findings/<F>/`, `run.sh <source_root> <build_dir>`; each fails on the pre-fix tree and passes on the fixed one). Repaired defects are one `fix:` commit each in /repo (unedited test-suite still 88/88 ctest entries = the 61 baseline groups); they are listed in `known_findings.json` under `fixed` and suppress nothing.\n\n")
+for f in kf["fixed"]:
+    out.append("* %s\n" % f)
+out.append("\nRecorded, not repaired (`known_findings.json`, keyed by rule + function + instance; a different violation of the same rule is still a VIOLATION):\n\n")
+for f in kf["findings"]:
+    out.append("* %s `%s` - %s\n" % (f["property"], f["key"], f["what"]))
+out.append(falsealarms)
+out.append(seeded_intro)
+caught = sum(1 for s, r in m.items() if isinstance(r, dict) and s.split("-")[0] in r.get("fired", {}))
+broken = sorted(s for s, r in m.items() if s.split("-")[0] in r.get("broken", []))
+out.append("\nResult: **%d of %d** seeded changes are reported as VIOLATION by the check of their own property; %s reported as ANALYSIS-BROKEN (exit 2: the rule cannot decide the restructured construct and says so instead of guessing). %d seeds additionally trip a check of a neighbouring property that shares the code.\n" % (caught, len(m), (", ".join(broken) + (" is" if len(broken) == 1 else " are")) if broken else "none is", sum(1 for r in m.values() if len(r.get("fired", {})) > 1)))
+body = "".join(out)
+p = os.path.join(H, "DESIGN.md")
 s = open(p).read()
 i = s.find("\n## 11. As built")
 if i >= 0:
     s = s[:i]
-s = s.rstrip("\n") + "\n" + body
-open(p, "w").write(s)
-print("DESIGN.md: section 11 written (%d bytes)" % len(body))
+open(p, "w").write(s.rstrip("\n") + "\n" + body)
+print("DESIGN.md: section 11 regenerated (%d bytes)" % len(body))
